@@ -13,8 +13,12 @@ _PRISTINE = None
 
 
 def num(v):
-    """case value -> Python number (None = NaN)"""
-    return NAN if v is None else v
+    """case value -> Python number (None = NaN; the strings "inf" / "-inf" of the 'inff' stream = the infinities)"""
+    return NAN if v is None else (float(v) if isinstance(v, str) else v)
+
+
+def finite(v):
+    return v is not None and not isinstance(v, str)
 
 
 def canon(x):
@@ -154,7 +158,26 @@ def local_tol(terms):
     return REL_TOL * max(mags + [0.0]) + ABS_FLOOR
 
 
-def check_signal(w, v, fb, got, what, skip_undefined=False):
+def check_nonfinite(w, v, fb, got, what):
+    """a signal holding +inf / -inf samples (strings in the case): a window that holds one has no weighted mean in the reals
+    and nothing is demanded there (the code returns inf, or NaN for inf - inf and 0 * inf); every other output is the mean
+    of its own finite window; a copied boundary value is returned unchanged, infinite or not"""
+    n, D = len(v), len(w) // 2
+    if not isinstance(got, list) or len(got) != n:
+        return "%s: output has %s values for %d inputs" % (what, len(got) if isinstance(got, list) else got, n)
+    skip = set()
+    for i in range(n):
+        if not fb and (i < D or i >= n - D):
+            if isinstance(v[i], str):
+                if got[i] != float(v[i]):
+                    return "%s: output[%d] = %r, the unfiltered boundary value is %s" % (what, i, got[i], v[i])
+                skip.add(i)
+        elif any(isinstance(x, str) for _, x in window_terms(w, v, i)):
+            skip.add(i)
+    return check_signal(w, [0 if isinstance(x, str) else x for x in v], fb, got, what, skip=skip, const_check=False)
+
+
+def check_signal(w, v, fb, got, what, skip_undefined=False, skip=(), const_check=True):
     """compare an output signal of the implementation with the property (mean, bounds, constants, boundary);
     skip_undefined: an index whose valid weights sum to 0 has no weighted mean — nothing is demanded there.
     Tolerances are local to the window of the index (local_tol); a copied boundary value is compared exactly"""
@@ -163,9 +186,11 @@ def check_signal(w, v, fb, got, what, skip_undefined=False):
         return "%s: output has %s values for %d inputs" % (what, len(got) if isinstance(got, list) else got, n)
     want = mean_oracle(w, v, fb)
     valid = [x for x in v if x is not None]
-    const = len(set(valid)) == 1
+    const = const_check and len(set(valid)) == 1
     for i in range(n):
         e, g = want[i], got[i]
+        if i in skip:
+            continue
         if e == "undefined":
             if skip_undefined:
                 continue
@@ -275,6 +300,7 @@ class P(Prop):
                        "math.exp is a parameter of the Gaussian / Exponential kernel functions: exp_kernel_windows / smooth_gaussian assume it returns positive numbers "
                        "(true of libm on the sampled range, not proved); closed-form user functions are a function parameter tabulated by Python, "
                        "window_shape / window_of_nonneg_kernel apply to them under the stated hypotheses (even, non-negative at the sample points, positive at one)",
+                       "a window that holds an infinite sample has no weighted mean in the reals: the model (Float) is compared with the code there (inf, NaN for inf - inf and 0 * inf), nothing is judged",
                        "a weight list whose total sum is 0, weights that are NaN (a feature-name kernel over a feature with NaN) or negative are not modelled (numpy yields nan/inf)",
                        "values read back as numpy scalars by a later call on the same track change ZeroDivisionError into nan outside the domain: sessions use one track per call, "
                        "and the same track is filtered twice only when both passes are in the domain",
@@ -317,7 +343,8 @@ class P(Prop):
             "copied; the IndexError of the boundary copy below the half window is not judged. Cases outside the "
             "property's domain are kept in correspondence-only streams: 'zeronorm' (a window without valid weight), "
             "'badk' (even / empty windows, support < 1, zero-sum kernels, a float kernel, reserved or unknown names, empty tracks); "
-            "'zerow' (weight lists with zero weights) is judged at the indices whose valid weights have a positive sum. non-trivial = window of "
+            "'zerow' (weight lists with zero weights) is judged at the indices whose valid weights have a positive sum; 'inff' (float signals holding +inf / -inf samples, "
+            "first valid / anywhere / both signs) is judged at the windows that hold no infinite sample and at the copied boundary values. non-trivial = window of "
             "at least 3 weights and a non-constant signal (or a sliding-window case)")
 
     def setup(self):
@@ -699,6 +726,32 @@ class P(Prop):
                     sc = "f"
                 st.pop("sc", None)
             out.append({"kind": "session", "steps": steps, "sc": sc, "prebuild": rng.random() < 0.5})
+        # ---- infinite samples (a speed d/0 computed with numpy, a sentinel): the windows that hold none are judged
+        made = 0
+        while made < (200 if quick else 2500):
+            k = self.rand_kernel(rng)
+            w = shape_weights(k)
+            if len(w) < 3:
+                continue
+            n = len(w) + rng.choice([0, 1, 2, rng.randrange(0, 13)])
+            v = self.rand_signal(rng, n, floats=True)
+            valid = [i for i in range(n) if v[i] is not None]
+            if not valid or not domain_ok(w, v):
+                continue
+            sg = rng.choice(["inf", "inf", "-inf"])
+            where = rng.choice(["first", "first", "any", "two", "mixed"])
+            if where == "first":
+                v[valid[0]] = sg
+            elif where == "any":
+                v[rng.choice(valid)] = sg
+            elif where == "two":
+                v[valid[0]] = sg
+                v[rng.choice(valid)] = sg
+            else:
+                v[rng.choice(valid)] = "inf"
+                v[rng.choice(valid)] = "-inf"
+            out.append({"kind": "inff", "sig": v, "k": k, "sc": "f"})
+            made += 1
         # ---- weight lists with zero weights: judged where the valid weights have a positive sum
         made = 0
         while made < (300 if quick else 3000):
@@ -973,7 +1026,7 @@ class P(Prop):
             return bool(case["judge"]) and len(shape_weights(case["k"])) >= 3
         if len(self.kweights(case)) < 3:
             return False
-        sigs = [case["sig"]] if kind in ("feat", "zerow", "short") else [case["x"], case["y"], case["z"]]
+        sigs = [case["sig"]] if kind in ("feat", "zerow", "short", "inff") else [case["x"], case["y"], case["z"]]
         return any(len(set(x for x in s if x is not None)) > 1 for s in sigs)
 
     # ---------------------------------------------------------------- implementation
@@ -1127,7 +1180,7 @@ class P(Prop):
         kind = case["kind"]
         if kind == "sw":
             return {"window": self.window_of(case["k"])}
-        if kind in ("feat", "zeronorm", "short", "zerow"):
+        if kind in ("feat", "zeronorm", "short", "zerow", "inff"):
             v = case["sig"]
             t = self.mk_track([float(i) for i in range(len(v))])
             t.createAnalyticalFeature("a", [num(a) for a in v])
@@ -1273,7 +1326,7 @@ class P(Prop):
         kind, sc = case["kind"], case["sc"]
         if kind == "sw" or (kind == "badk" and "dims" not in case):
             return ["C15.sw %s %s" % (sc, self.kspec(sc, case["k"]))]
-        if kind in ("feat", "zeronorm", "short", "zerow"):
+        if kind in ("feat", "zeronorm", "short", "zerow", "inff"):
             k = case["k"]
             ls = ["C15.exec %s %s %s" % (sc, self.sig_tok(sc, case["sig"]), self.kspec(sc, k))]
             if self.needs_sw(k):
@@ -1370,7 +1423,7 @@ class P(Prop):
             if r[0] != "ok":
                 return {"err": r[0]}
             return {"window": self.decode_window(case, case["k"], replies)}
-        if kind in ("feat", "zeronorm", "short", "zerow"):
+        if kind in ("feat", "zeronorm", "short", "zerow", "inff"):
             r = replies[0].split(" ")
             if r[0] != "ok":
                 return {"err": r[0]}
@@ -1532,6 +1585,13 @@ class P(Prop):
             return self.judge_error(case, out)
         if kind == "sw":
             return check_window(out["window"])
+        if kind == "inff":
+            w, fb, bad = self.weights_for(case["k"], out)
+            if bad:
+                return bad
+            if out["input_after"] != [canon(num(a)) for a in case["sig"]]:
+                return "the input feature was modified: %r" % out["input_after"]
+            return check_nonfinite(w, case["sig"], fb, out["out"], "feature")
         if kind in ("feat", "zerow", "short"):
             w, fb, bad = self.weights_for(case["k"], out)
             if bad:
@@ -1592,7 +1652,7 @@ class P(Prop):
 
     def case_signals(self, case):
         kind = case["kind"]
-        if kind in ("feat", "short", "zerow", "zeronorm"):
+        if kind in ("feat", "short", "zerow", "zeronorm", "inff"):
             return [case["sig"]]
         allsig = dict({"x": case["x"], "y": case["y"], "z": case["z"]}, **case.get("feats", {}))
         if kind == "op":
@@ -1642,7 +1702,7 @@ class P(Prop):
 
     # ---------------------------------------------------------------- shrinking / search
     def _sig_names(self, case):
-        return ["sig"] if case["kind"] in ("feat", "zeronorm", "short", "zerow") else ["x", "y", "z"]
+        return ["sig"] if case["kind"] in ("feat", "zeronorm", "short", "zerow", "inff") else ["x", "y", "z"]
 
     def shrink(self, case):
         kind = case["kind"]
@@ -1736,7 +1796,7 @@ class P(Prop):
             s = case[nm]
             for i in range(len(s)):
                 for nv in (0, 1):
-                    if s[i] != nv and (s[i] is None or abs(s[i]) > 1 or s[i] != int(s[i])):
+                    if s[i] != nv and not isinstance(s[i], str) and (s[i] is None or abs(s[i]) > 1 or s[i] != int(s[i])):
                         c = dict(case)
                         c[nm] = s[:i] + [nv] + s[i + 1:]
                         if self._in_domain(c) == self._in_domain(case):
@@ -1748,7 +1808,7 @@ class P(Prop):
             for i in range(len(w)):
                 if w[i] != 1:
                     yield dict(case, k={"t": "list", "w": w[:i] + [1] + w[i + 1:]})
-        if case.get("sc") == "f" and k["t"] in ("list", "int", "dirac", "user") + RATIONAL_KERNELS and kind != "smooth":
+        if case.get("sc") == "f" and k["t"] in ("list", "int", "dirac", "user") + RATIONAL_KERNELS and kind not in ("smooth", "inff"):
             yield dict(case, sc="r")
 
     def _in_domain(self, case):
@@ -1766,7 +1826,7 @@ class P(Prop):
         if k["t"] not in ("list", "int", "dirac", "feat") and support_of(k) < 1:
             return False
         w = self.kweights(dict(case, k=k))
-        if kind == "feat":
+        if kind in ("feat", "inff"):
             return domain_ok(w, case["sig"])
         if len(case["x"]) == 0:
             return False
